@@ -1,15 +1,17 @@
 (* proofs/VerdictInvariant.v — C14, verdict half: the checker's verdict is unchanged by consistent
    renaming and by permuting declarations.  Obtained from the invariance of the DECLARATIVE judgement
-   (Equivariance.v, DeclPerm.v) through C07 (TypingVerdict.v).
+   (Equivariance.v, EquivarianceTypes.v, DeclPerm.v) through C07 (TypingVerdict.v).
 
-   PROVED (verdict_invariant_partial, verdict_invariant_perm): bijective renaming of channel
-   identifiers and of function names; permutation of the function, process and assumed-name
-   declarations.
-   NOT PROVED (kept as the Definition verdict_invariant_types_statement below): renaming of TYPE NAMES
-   and LABELS, and permutation of the TYPE definitions.  What is missing is the equivariance /
-   order-independence of the functions of package `types` that the judgement mentions (tlookup-based:
-   head, check_wf, add_missing, sanity_typedefs) and of the type-equality relation; the induction over
-   the typing rules is the same as in Equivariance.typed_ren_all. *)
+   PROVED, closed (type agreement = EqualType's answer):
+     verdict_invariant_partial   bijective renaming of channel identifiers and of function names
+     verdict_invariant_perm      permutation of the function, process and assumed-name declarations
+   PROVED, relative to a type-equality relation that EqualType decides (teq_decided: the statement of
+   C08) and that is itself invariant under the renaming (teq_equivariant: true of bisimilarity):
+     verdict_invariant_types     bijective renaming of type names and labels
+   (the closed instance is not available: EqualType's memo is keyed by PRINTED types, so its answer
+   is invariant only for renamings under which printing stays injective — C15's matter.)
+   NOT PROVED (kept as the Definition verdict_invariant_type_order_statement): permutation of the TYPE
+   definitions; missing: order-independence of the tlookup-based functions of package `types`. *)
 Require Import Grits.Base Grits.ModeDefs Grits.Modes Grits.STypes Grits.Forms Grits.Subst Grits.Infer
                Grits.TcDeps Grits.Expand Grits.Tc Grits.TcTop Grits.spec.Typing Grits.proofs.TcLemmas
                Grits.proofs.TypingVerdict Grits.proofs.Equivariance Grits.proofs.DeclPerm Grits.proofs.EquivarianceTypes.
@@ -30,10 +32,17 @@ Proof. intros Hr Hf. rewrite !tc_verdict_alg. now apply typing_equivariant_chan.
 Theorem verdict_invariant_perm p p' : decl_perm p p' -> (accepts p <-> accepts p').
 Proof. intros H. rewrite !tc_verdict_alg. now apply typing_perm_iff. Qed.
 
-(* ---------------------------------------------------------------- the part not proved: types *)
-(* the full statement of the verdict half of C14 adds these two (not proved here): *)
-Definition verdict_invariant_types_statement : Prop :=
-  forall rt rt' rl rl' p, bijection rt rt' -> bijection rl rl' -> (accepts p <-> accepts (rent_program rt rl p)).
+(* ---------------------------------------------------------------- type names and labels *)
+Theorem verdict_invariant_types teq rt rt' rl rl' p :
+  teq_decided teq -> bijection_t rt rt' -> bijection_t rl rl' ->
+  teq_equivariant teq rt rl -> teq_equivariant teq rt' rl' ->
+  (accepts p <-> accepts (rent_program rt rl p)).
+Proof.
+  intros Hd Ht Hl E1 E2. rewrite !(tc_verdict teq Hd). now apply (typing_equivariant_types teq rt rt' rl rl').
+Qed.
+
+(* ---------------------------------------------------------------- the part not proved *)
+(* the full statement of the verdict half of C14 adds this one (not proved here): *)
 Definition verdict_invariant_type_order_statement : Prop :=
   forall p D', Permutation (p_types p) D' ->
     (accepts p <-> accepts {| p_procs := p_procs p; p_assumed := p_assumed p; p_funs := p_funs p; p_types := D' |}).
